@@ -1,6 +1,7 @@
 package harness
 
 import (
+	"net/url"
 	"reflect"
 	"regexp"
 	"strconv"
@@ -291,6 +292,96 @@ func modelEqual(a, b any) bool {
 	return reflect.DeepEqual(a, b)
 }
 
+// Hand-written readings of the generated Match patterns (no regular expression engine involved).
+func refMatch(pat, s string) bool {
+	digits := func(x string) bool {
+		for i := 0; i < len(x); i++ {
+			if x[i] < '0' || x[i] > '9' {
+				return false
+			}
+		}
+		return len(x) > 0
+	}
+	switch pat {
+	case `^abc$`:
+		return s == "abc"
+	case `^ab`:
+		return strings.HasPrefix(s, "ab")
+	case `lo$`:
+		return strings.HasSuffix(s, "lo")
+	case `b`:
+		return strings.Contains(s, "b")
+	case `^[0-9]+$`:
+		return digits(s)
+	case `^h.*o$`:
+		return len(s) >= 2 && s[0] == 'h' && s[len(s)-1] == 'o' && !strings.Contains(s, "\n")
+	case `^v1\.2$`:
+		return s == "v1.2"
+	case `^prod\z`:
+		return s == "prod"
+	case `^(a|ab)$`:
+		return s == "a" || s == "ab"
+	case `(?i)^hello$`:
+		return strings.EqualFold(s, "hello")
+	case `^$`:
+		return s == ""
+	case `^a\$b$`:
+		return s == "a$b"
+	case `^x!$`:
+		return s == "x!"
+	}
+	panic("harness: no reference reading for pattern " + pat)
+}
+
+func isHex(c byte) bool {
+	return (c >= '0' && c <= '9') || (c >= 'a' && c <= 'f') || (c >= 'A' && c <= 'F')
+}
+
+func isAlnum(c byte) bool {
+	return (c >= '0' && c <= '9') || (c >= 'a' && c <= 'z') || (c >= 'A' && c <= 'Z')
+}
+
+// 8-4-4-4-12 hexadecimal digits
+func refUUID(s string) bool {
+	if len(s) != 36 {
+		return false
+	}
+	for i := 0; i < 36; i++ {
+		if i == 8 || i == 13 || i == 18 || i == 23 {
+			if s[i] != '-' {
+				return false
+			}
+		} else if !isHex(s[i]) {
+			return false
+		}
+	}
+	return true
+}
+
+// local@label(.label)*: the local part from the printable set the HTML living standard allows, labels of 1-63 letters, digits and inner hyphens
+func refEmail(s string) bool {
+	at := strings.IndexByte(s, '@')
+	if at <= 0 {
+		return false
+	}
+	for i := 0; i < at; i++ {
+		if !isAlnum(s[i]) && !strings.ContainsRune(".!#$%&'*+/=?^_`{|}~-", rune(s[i])) {
+			return false
+		}
+	}
+	for _, lab := range strings.Split(s[at+1:], ".") {
+		if len(lab) < 1 || len(lab) > 63 || !isAlnum(lab[0]) || !isAlnum(lab[len(lab)-1]) {
+			return false
+		}
+		for i := 0; i < len(lab); i++ {
+			if !isAlnum(lab[i]) && lab[i] != '-' {
+				return false
+			}
+		}
+	}
+	return true
+}
+
 // TestPass is the independent reference predicate of every generated test.
 func TestPass(n *Node, t TestSpec, val any) bool {
 	var r bool
@@ -335,6 +426,15 @@ func TestPass(n *Node, t TestSpec, val any) bool {
 					r = true
 				}
 			}
+		case "match":
+			r = refMatch(t.S, s)
+		case "uuid":
+			r = refUUID(s)
+		case "email":
+			r = refEmail(s)
+		case "url":
+			u, err := url.Parse(s)
+			r = err == nil && u.Scheme != "" && u.Host != ""
 		case "custom":
 			return CustomPass(t, val)
 		}
